@@ -17,6 +17,7 @@ integer tokens `num den`; replies `num/den` or `none` (KeyError / ZeroDivisionEr
   dist <metric> <increment> <dn> <dd> <cn> <cd>             -> EmissionsSourceDist rate for that draw
   tounit <metric> <increment> <n> <d>                       -> the rate written in that unit
   seeds <old> <draws> <nSim>                                -> seed list of gen_seed_emis
+  init <seeds> <nSaved> <fresh> <n>                         -> [[sim,seed],...] <nSaved'>  (one initialize_emissions run)
   seedrange                                                 -> <low> <high>
   names                                                     -> in=[..] out=[..] inc=[..] sub=[..] temp=[..] pres=[..]
 -/
@@ -79,6 +80,13 @@ def step (_ : Unit) (toks : List String) : Unit × String :=
     match natList? old, natList? draws, nat? n with
     | some old, some draws, some n => ((), showList toString (genSeeds old draws n))
     | _, _, _ => ((), "bad-op")
+  | ["init", seeds, nSaved, fresh, n] =>
+    match natList? seeds, nat? nSaved, bool? fresh, nat? n with
+    | some seeds, some nSaved, some fresh, some n =>
+      let tr := seedTrace (fun i => seeds.getD i 0) fresh nSaved n
+      let ns := (initRun (fun i => seeds.getD i 0) id fresh n { nSaved := nSaved, files := fun _ => none }).nSaved
+      ((), showList (fun (p : Nat × Nat) => s!"[{p.1},{p.2}]") tr ++ s!" {ns}")
+    | _, _, _, _ => ((), "bad-op")
   | ["seedrange"] =>
     ((), s!"{LdarModel.Generated.EmisSeed.seedLow} {LdarModel.Generated.EmisSeed.seedHigh}")
   | ["names"] =>
